@@ -87,6 +87,18 @@ func init() {
 					}
 				}
 				if !matched {
+					// the reviewed expression, text unchanged, in a helper carved out of the reviewed function
+					rt := loadReviewed(c, "index.json")
+					for i, e := range tab.Entries {
+						if e.Expr == site.Expr && rt.movedInto[e.Function][fn] {
+							used[i] = true
+							matched = true
+							s.OK(key, pos, "reviewed invariant: "+e.Invariant+" (reviewed in "+bareFuncName(e.Function)+", from which this helper was carved)")
+							break
+						}
+					}
+				}
+				if !matched {
 					s.Unknown(key, pos, "cannot show the expression is within bounds ("+fact+") and it is not a reviewed invariant: possible index-out-of-range panic")
 				}
 			}
@@ -160,6 +172,10 @@ type reviewedTable struct {
 		Expr      string `json:"expr"`
 		Invariant string `json:"invariant"`
 	} `json:"entries"`
+	// movedInto: reviewed function -> the helpers a refactoring carved out of it (functions the reference inventory
+	// does not know, reachable from it through static calls); a reviewed expression that now stands in such a helper,
+	// text unchanged, keeps its entry
+	movedInto map[string]map[string]bool
 }
 
 func loadReviewed(c *Ctx, name string) *reviewedTable {
@@ -171,6 +187,30 @@ func loadReviewed(c *Ctx, name string) *reviewedTable {
 		}
 		if err := json.Unmarshal(b, &t); err != nil {
 			panic("tables/" + name + ": " + err.Error())
+		}
+		t.movedInto = map[string]map[string]bool{}
+		byName := map[string]*ssa.Function{}
+		for _, f := range c.P.ModFns {
+			byName[core.FuncName(f)] = f
+		}
+		for _, e := range t.Entries {
+			if t.movedInto[e.Function] != nil {
+				continue
+			}
+			t.movedInto[e.Function] = map[string]bool{}
+			f := byName[e.Function]
+			if f == nil {
+				for n, g := range byName {
+					if bareFuncName(n) == bareFuncName(e.Function) {
+						f = g
+					}
+				}
+			}
+			if f != nil {
+				for _, h := range newHelpersOf(c, f) {
+					t.movedInto[e.Function][core.FuncName(h)] = true
+				}
+			}
 		}
 		return &t
 	}).(*reviewedTable)
@@ -189,6 +229,11 @@ func (t *reviewedTable) find(fn, expr string) (string, bool) {
 	for _, e := range t.Entries {
 		if (e.Function == fn || bareFuncName(e.Function) == bareFuncName(fn)) && e.Expr == expr {
 			return e.Invariant, true
+		}
+	}
+	for _, e := range t.Entries {
+		if e.Expr == expr && e.Expr != "*" && t.movedInto[e.Function][fn] {
+			return e.Invariant + " (reviewed in " + bareFuncName(e.Function) + ", from which this helper was carved)", true
 		}
 	}
 	return "", false
